@@ -90,7 +90,7 @@ func NewFastHTTPHandler(h http.Handler) fasthttp.RequestHandler {
 			// Buffered, no Flush() nor Hijack().
 			ctx.SetStatusCode(w.status())
 			haveContentType := false
-			for k, vv := range w.Header() {
+			for k, vv := range w.responseHeader() {
 				if k == fasthttp.HeaderContentType {
 					haveContentType = true
 				}
@@ -119,7 +119,7 @@ func NewFastHTTPHandler(h http.Handler) fasthttp.RequestHandler {
 			ctx.SetStatusCode(w.status())
 
 			haveContentType := false
-			for k, vv := range w.Header() {
+			for k, vv := range w.responseHeader() {
 				// No Content-Length when streaming.
 				if k == fasthttp.HeaderContentLength {
 					continue
@@ -201,6 +201,7 @@ const (
 type writer struct {
 	ctx        *fasthttp.RequestCtx
 	h          http.Header
+	committedH http.Header // snapshot of h taken when the response is committed
 	statusCode atomic.Int64
 
 	mu           sync.Mutex
@@ -216,8 +217,9 @@ type writer struct {
 
 	streamReady chan struct{}
 
-	flushOnce sync.Once
-	closeOnce sync.Once
+	commitOnce sync.Once
+	flushOnce  sync.Once
+	closeOnce  sync.Once
 }
 
 func acquireWriter(ctx *fasthttp.RequestCtx) *writer {
@@ -245,11 +247,34 @@ func (w *writer) Header() http.Header {
 	return w.h
 }
 
+// commitHeader freezes the response header. Like in net/http, changing the
+// header map after the first call to WriteHeader, Write or Flush has no effect.
+func (w *writer) commitHeader() {
+	w.commitOnce.Do(func() {
+		w.committedH = w.h.Clone()
+	})
+}
+
+// responseHeader returns the header to send: the committed snapshot if the
+// handler committed the response, the live map otherwise.
+func (w *writer) responseHeader() http.Header {
+	if w.committedH != nil {
+		return w.committedH
+	}
+	return w.h
+}
+
 func (w *writer) WriteHeader(code int) {
 	// Allow the same codes as net/http.
 	if code < 100 || code > 999 {
 		panic(fmt.Sprintf("invalid WriteHeader code %v", code))
 	}
+	if code >= 100 && code <= 199 && code != http.StatusSwitchingProtocols {
+		// Informational responses are not forwarded by the adaptor. As in net/http
+		// they don't commit the response, so they must not become its final status.
+		return
+	}
+	w.commitHeader()
 	w.statusCode.CompareAndSwap(0, int64(code))
 }
 
@@ -269,6 +294,11 @@ func (w *writer) Write(p []byte) (int, error) {
 	}
 	defer w.mu.Unlock()
 
+	// Like net/http, the first Write commits the status (200 unless WriteHeader
+	// was called before), so a later WriteHeader call has no effect.
+	w.statusCode.CompareAndSwap(0, int64(w.status()))
+	w.commitHeader()
+
 	if w.responseBody == nil {
 		w.bufPool = bufferPool.Get().(*[]byte) //nolint:forcetypeassert
 		w.responseBody = (*w.bufPool)[:0]
@@ -279,6 +309,9 @@ func (w *writer) Write(p []byte) (int, error) {
 
 func (w *writer) Flush() {
 	w.flushOnce.Do(func() {
+		// Flush commits the status too.
+		w.statusCode.CompareAndSwap(0, int64(w.status()))
+		w.commitHeader()
 		select {
 		case w.modeCh <- modeFlushed:
 		default:
